@@ -144,6 +144,13 @@ StructRules(S) ==
        \o CacheRules(S) \o AllocRules(S)
 
 (* what a failed operation must leave unchanged: everything except the caches' LRU order *)
+(* an entry (name, inode) that is in directory d in both snapshots sits in the same slot *)
+EntryMoved(D1, D2) ==
+  \E a \in 1..Len(D1), b \in 1..Len(D2) :
+     /\ D1[a].inum = D2[b].inum
+     /\ \E x \in 1..Len(D1[a].slots), y \in 1..Len(D2[b].slots) :
+          /\ D1[a].slots[x].inum # 0 /\ D1[a].slots[x].inum = D2[b].slots[y].inum
+          /\ D1[a].slots[x].name = D2[b].slots[y].name /\ D1[a].slots[x].slot # D2[b].slots[y].slot
 Frame(S) == [bbm |-> S.bbm, ibm |-> S.ibm, inodes |-> S.inodes, dirs |-> S.dirs, nonzero |-> S.nonzero,
              balloc |-> S.balloc, ialloc |-> S.ialloc]
 =============================================================================
